@@ -439,6 +439,12 @@ func corrC02(r *Run) {
 			Message: pdu.ShortMessage{UDHeader: pdu.UserDataHeader{1: long(120), 2: long(100)}, Message: long(32)}}},
 		{"udh+message-wrap-to-small", &pdu.SubmitSM{Header: pdu.Header{Sequence: 1}, ESMClass: pdu.ESMClass{UDHIndicator: true},
 			Message: pdu.ShortMessage{UDHeader: pdu.UserDataHeader{1: long(126), 2: long(125)}, Message: long(5)}}},
+		{"esm_class-mode-4", &pdu.SubmitSM{Header: pdu.Header{Sequence: 1}, ESMClass: pdu.ESMClass{MessageMode: 4}}},
+		{"esm_class-type-0x1f", &pdu.DeliverSM{Header: pdu.Header{Sequence: 1}, ESMClass: pdu.ESMClass{MessageMode: 1, MessageType: 0x1F}}},
+		{"esm_class-mode-0xff", &pdu.DataSM{Header: pdu.Header{Sequence: 1}, ESMClass: pdu.ESMClass{MessageMode: 0xFF, UDHIndicator: true}}},
+		{"registered_delivery-receipt-7", &pdu.SubmitSM{Header: pdu.Header{Sequence: 1}, RegisteredDelivery: pdu.RegisteredDelivery{MCDeliveryReceipt: 7}}},
+		{"registered_delivery-ack-4", &pdu.SubmitMulti{Header: pdu.Header{Sequence: 1}, RegisteredDelivery: pdu.RegisteredDelivery{SMEOriginatedAcknowledgment: 4}}},
+		{"registered_delivery-reserved-9", &pdu.ReplaceSM{Header: pdu.Header{Sequence: 1}, RegisteredDelivery: pdu.RegisteredDelivery{MCDeliveryReceipt: 1, Reserved: 9}}},
 		{"message-141", &pdu.SubmitSM{Header: pdu.Header{Sequence: 1}, Message: pdu.ShortMessage{Message: long(141)}}},
 	}
 	// boundary combinations, with the expected verdict computed from the field widths of the specification
